@@ -1036,6 +1036,61 @@ pub fn pump_family(rep: &mut Report, mode: Mode, tier: Tier) {
         t.nontrivial(&(format!("{fam:?}"), n));
         t.outcome(&format!("pumped:{fam:?}"));
     });
+    // errors and surrogate escapes far into a long string: offsets beyond the inline capacity
+    // and beyond u8 / u16 ranges
+    let cap = if tier == Tier::Thorough { 65537 } else { 4097 };
+    let t3 = explore::par_tally(refmodel::pump::thresholds(cap), |n, t| {
+        let a = "a".repeat(n);
+        let e = "\u{e9}".repeat(n / 2);
+        let mut texts: Vec<Vec<u8>> = Vec::new();
+        for body in [&a, &e] {
+            for tail in ["\u{1}", "\\q", "\\u12", "\\uD800", "\\uDC00x", "\\uD800\\uDC00", "\\uD800\\uD800\\uDC00", "\\uD800\\n", "\n"] {
+                texts.push(format!("\"{body}{tail}\"").into_bytes());
+                texts.push(format!("{{\"{body}{tail}\":[\"{tail}{body}\"]}}").into_bytes());
+            }
+            // ill-formed UTF-8 after n well-formed bytes
+            for bad in [&[0xFFu8][..], &[0xC0, 0x80], &[0xED, 0xA0, 0x80], &[0xE2, 0x82]] {
+                let mut b = format!("[\"{body}").into_bytes();
+                b.extend_from_slice(bad);
+                b.extend_from_slice(b"\"]");
+                texts.push(b);
+            }
+        }
+        for b in texts {
+            match std::str::from_utf8(&b) {
+                Ok(text) if mode == Mode::C12 || mode == Mode::C02 => x_case(text, mode, t),
+                _ => {
+                    let recs: &[(bool, bool)] = if mode == Mode::C12 { &RECORDS } else { &[(false, false)] };
+                    for &rec in recs {
+                        let exp = expect_bytes(&b, rec);
+                        let o = slice_entry(&b, options(rec.0, rec.1));
+                        t.evals += 1;
+                        let r = match mode {
+                            Mode::C01 => {
+                                if matches!(o, Out::Ok(..)) == (exp == Expect::Accept) && !matches!(o, Out::Broken(_)) {
+                                    Ok(())
+                                } else {
+                                    Err(format!("verdict differs: expected {exp:?}, observed {}", o.class()))
+                                }
+                            }
+                            Mode::C03 => match &o {
+                                Out::Broken(w) => Err(format!("did not return: {w}")),
+                                _ => Ok(()),
+                            },
+                            Mode::C05 => Ok(()),
+                            _ => check(&o, &exp, &b),
+                        };
+                        if let Err(e) = r {
+                            t.violation("", format!("long string ({n} characters) then a fault: {e}"), json!({"kind": "pump-fault", "n": n, "tail": String::from_utf8_lossy(&b[b.len().saturating_sub(24)..]), "len": b.len()}));
+                        }
+                    }
+                }
+            }
+        }
+        t.nontrivial(&("fault-after", n));
+        t.outcome("pumped:fault after a long prefix");
+    });
+    rep.absorb(t3);
     // long whitespace runs at every token boundary of a small document
     let mut t2 = Tally::new();
     let toks = ["[", "1", ",", "{", "\"a\"", ":", "\"b\"", "}", "]"];
